@@ -1,6 +1,6 @@
 /-
 C02 — A member's status time only grows; an intent that is not newer changes nothing.
-(per-step clauses; the cluster-level agreement clause is NOT proved, see the end of the file)
+(per-step clauses in full; the cluster-level agreement clause PARTIALLY — `C02_agreement_partial*` at the end of the file, with the two counterexamples to the full statement)
 
 Model: `SerfModel.Node` (serf/serf.go, serf/delegate.go): one node's membership state machine.
 `members` is the Go map `s.members`; `ltimeOf n x` is `s.members[x].statusLTime`, `statusOf n x`
@@ -32,6 +32,8 @@ Proved here (the effect lemmas are in `SerfProofs.NodeSteps`):
 Only the Lamport clock (`witness`) moves on a stale intent; the theorems say nothing about it.
 -/
 import SerfProofs.Lemmas.NodeSteps
+import SerfProofs.Lemmas.NodeObserver
+import SerfProofs.Lemmas.Cluster
 namespace SerfProofs.C02
 open SerfModel SerfModel.Node SerfProofs.NodeBook SerfProofs.NodeSteps
 
@@ -315,7 +317,8 @@ example : ltimeOf demo demo.name = some 0 ∧ demo.life = .alive ∧
     (handleLeaveIntent demo "self" 3 false 0).1.pending = [5] := by decide
 
 /-!
-### The cluster-level clause (NOT proved)
+### The cluster-level clause (history: written before the cluster model existed; see the section
+"cluster-level agreement" at the end of the file for what is now proved and refuted)
 
 C02 also has a cluster-level clause:
 
@@ -323,9 +326,8 @@ C02 also has a cluster-level clause:
    followed by a state-sync (push/pull) exchange between every pair of members, all members
    agree on each member's status and status time."
 
-This statement needs a cluster model — N nodes, a message soup with loss and reordering, and a
-memberlist oracle producing the join / leave notifications — which is not built yet; nothing in
-this file proves or refutes it.
+The cluster model is `SerfModel.Cluster` (N nodes, in-flight multiset with loss / duplication, a
+memberlist oracle, push/pull with both LocalStates computed before merging, local API ops).
 
 Reading the code predicts a counterexample rather than a proof.  W force-leaves the running node
 X (`RemoveFailedNode`): W records X as leaving at W's clock value T and gossips the leave.  The
@@ -353,5 +355,155 @@ theorem C02_agreement_partial_leave_would_refute :
     let n := Node.init "self" {}
     let r := step n (.leaveMsg "self" 7 false 0)
     ltimeOf r.1 "self" = some 0 ∧ r.1.pending = [8] := by decide
+
+/-- Second counterexample to the agreement clause (recorded finding `rejoined-stuck-leaving`, seen on a
+real 4-node cluster and reproduced on the real single node by corpus/C02/rejoined-stuck-leaving.case):
+x leaves gracefully at L = 5, restarts and rejoins (its join intent carries L + 1 = 6); the observer gets
+memberlist's NotifyJoin(x), then merges a push/pull from a peer that still lists x as left with status
+time 5: the artificial leave intent at 5 + 1 = 6 turns the running x from alive to leaving, and x's
+real join intent at 6 is ignored (6 ≤ 6) — x stays `leaving`, and the join is not even gossiped on. -/
+theorem C02_rejoined_stuck_leaving_counterexample :
+    let n := run (Node.init "a" {}) [.nodeJoin "x", .leaveMsg "x" 5 false 0, .nodeLeave "x" 0,
+      .nodeJoin "x", .merge 6 [("x", 5)] ["x"] 0, .joinMsg "x" 6 0]
+    statusOf n "x" = some .leaving ∧ ltimeOf n "x" = some 6 ∧
+      (step n (.joinMsg "x" 6 0)).2.rebroadcast = false ∧
+      statusOf (step n (.joinMsg "x" 6 0)).1 "x" = some .leaving := by decide
+
+/-! ### cluster-level agreement
+
+FULL STATEMENT (not provable — the code violates it; both counterexamples are theorems):
+
+    theorem C02_agreement (names) (cfg) (steps : List CStep) :
+        MLTruthful steps → AllPairsSynced steps →
+        ∀ a b x, running a → running b → Agree (truth x) (status a x) (status b x)
+
+  where `Agree` is the property's table: x running → both `alive`; mid-leave → each `alive` or
+  `leaving`; down after a leave / force-leave newer than its latest join → both `left`; down
+  otherwise → both `failed`.
+
+  Counterexample 1 (unrefuted claim): `SerfProofs.Cluster.cluster_unrefuted_claim_counterexample`
+  (2 nodes) and `…_three` (3 nodes, the gossip copy really lost): W force-leaves the running X,
+  push/pull hands X the claim as a JOIN intent about itself, X adopts the time silently; W lists
+  X as `leaving`, X (and Y) as `alive`, nothing is in flight or pending, and every further
+  push/pull is a no-op on the whole cluster.  Single-node half: `C02_agreement_partial_merge_adopts_silently`.
+  Counterexample 2 (tie, recorded finding `rejoined-stuck-leaving`, observed on a real 4-node
+  cluster): `C02_rejoined_stuck_leaving_counterexample` and its cluster form
+  `C02_agreement_counterexample_tie` below.
+
+PROVED (`C02_agreement_partial*`): every node of every cluster run is the single-node `run` of
+its local history (`crun_node`), so the observer-local theorems lift to every observer of every
+cluster run — any delivery order, duplication, loss, any placement of push/pulls, memberlist
+notifications and local API calls.  Agreement between two observers a, b about subject x then
+reads: if both local histories satisfy the observer-local hypotheses of the same liveness class
+of x, both list x with the same status.  The hypothesis `AliveAt` of the `alive` class is
+explicit and satisfiable, and it excludes exactly the two counterexamples: every leave claim
+about x that reached the observer (by gossip or created by a merge at StatusLTimes+1) is
+STRICTLY older than some join intent about x that reached it (the tie has `=`; in the unrefuted
+claim the observer W made the claim itself by a local force-leave, excluded by `noForce`).
+-/
+
+section ClusterAgreement
+open SerfModel.Cluster SerfProofs.Cluster SerfProofs.NodeObserver SerfProofs.NodeGossip
+
+/-- The observer-local hypotheses of the `alive` class, for an observer starting as `n` with local
+history `ops`: memberlist last reported x up; x was never erased nor its buffered intent reaped;
+the observer did not force-leave x itself; every leave claim about x delivered to the observer is
+strictly older than some join intent about x delivered to it. -/
+structure AliveAt (n : Node) (ops : List Op) (x : Name) : Prop where
+  ne : x ≠ n.name
+  kept : KeptAlong n ops x
+  noForce : NoForceLeave ops x
+  up : lastUp x ops false = true
+  newer : ∀ l ∈ leaveTimes ops x, ∃ j ∈ joinTimes ops x, l < j
+
+/-- one observer of an arbitrary cluster run from a fresh cluster -/
+theorem C02_cluster_observer_alive (names : List Name) (cfg : Config) (steps : List CStep) (i : Nat)
+    (nm x : Name) (hi : names[i]? = some nm)
+    (h : AliveAt (Node.init nm cfg) (history (Cluster.init names cfg) steps i) x) :
+    ∃ s, (crun (Cluster.init names cfg) steps).nodes[i]? = some s ∧ statusOf s x = some .alive := by
+  refine ⟨_, crun_node steps _ i _ (init_node names cfg i nm hi), ?_⟩
+  exact observer_alive nm cfg _ x h.ne h.kept h.noForce h.up h.newer
+
+/-- **Agreement, class `running`.** For every cluster run (any schedule, duplication, loss, push/pull
+placement), any two observers whose local histories satisfy `AliveAt` for x both list x as alive. -/
+theorem C02_agreement_partial (names : List Name) (cfg : Config) (steps : List CStep) (a b : Nat)
+    (na nb x : Name) (ha : names[a]? = some na) (hb : names[b]? = some nb)
+    (Ha : AliveAt (Node.init na cfg) (history (Cluster.init names cfg) steps a) x)
+    (Hb : AliveAt (Node.init nb cfg) (history (Cluster.init names cfg) steps b) x) :
+    ∃ sa sb, (crun (Cluster.init names cfg) steps).nodes[a]? = some sa ∧
+      (crun (Cluster.init names cfg) steps).nodes[b]? = some sb ∧
+      statusOf sa x = statusOf sb x ∧ statusOf sa x = some .alive := by
+  obtain ⟨sa, h1, h2⟩ := C02_cluster_observer_alive names cfg steps a na x ha Ha
+  obtain ⟨sb, h3, h4⟩ := C02_cluster_observer_alive names cfg steps b nb x hb Hb
+  exact ⟨sa, sb, h1, h3, by rw [h2, h4], h2⟩
+
+/-- **Agreement, class `left`, from any cluster state.** Two observers that list x as left keep
+agreeing on `left` along every continuation in which memberlist does not announce x anew to them
+and x is not erased (reaped / pruned) at them: no gossip, merge or local call resurrects x. -/
+theorem C02_agreement_partial_left (c : Cluster) (steps : List CStep) (a b : Nat) (na nb : Node) (x : Name)
+    (ha : c.nodes[a]? = some na) (hb : c.nodes[b]? = some nb)
+    (la : statusOf na x = some .left) (lb : statusOf nb x = some .left)
+    (ja : ∀ op ∈ history c steps a, op ≠ .nodeJoin x) (jb : ∀ op ∈ history c steps b, op ≠ .nodeJoin x)
+    (ka : KeptAlong na (history c steps a) x) (kb : KeptAlong nb (history c steps b) x) :
+    ∃ sa sb, (crun c steps).nodes[a]? = some sa ∧ (crun c steps).nodes[b]? = some sb ∧
+      statusOf sa x = some .left ∧ statusOf sb x = some .left :=
+  ⟨_, _, crun_node steps c a na ha, crun_node steps c b nb hb,
+    left_stays_left na _ x la ja ka, left_stays_left nb _ x lb jb kb⟩
+
+/-- **Agreement, class `failed`, from any cluster state.** Two observers that list x as failed keep
+agreeing on `failed` while memberlist does not announce x anew, no leave / force-leave claim about x
+reaches them (otherwise see `C01_forceleft_left`: it becomes left), and x is not erased. -/
+theorem C02_agreement_partial_failed (c : Cluster) (steps : List CStep) (a b : Nat) (na nb : Node) (x : Name)
+    (ha : c.nodes[a]? = some na) (hb : c.nodes[b]? = some nb) (xa : x ≠ na.name) (xb : x ≠ nb.name)
+    (fa : statusOf na x = some .failed) (fb : statusOf nb x = some .failed)
+    (ja : ∀ op ∈ history c steps a, op ≠ .nodeJoin x) (jb : ∀ op ∈ history c steps b, op ≠ .nodeJoin x)
+    (ca : ∀ op ∈ history c steps a, isLeaveClaimAbout x op = false)
+    (cb : ∀ op ∈ history c steps b, isLeaveClaimAbout x op = false)
+    (ka : KeptAlong na (history c steps a) x) (kb : KeptAlong nb (history c steps b) x) :
+    ∃ sa sb, (crun c steps).nodes[a]? = some sa ∧ (crun c steps).nodes[b]? = some sb ∧
+      statusOf sa x = some .failed ∧ statusOf sb x = some .failed :=
+  ⟨_, _, crun_node steps c a na ha, crun_node steps c b nb hb,
+    failed_stays_failed na _ x xa fa ja ca ka, failed_stays_failed nb _ x xb fb jb cb kb⟩
+
+/-- The tie on a cluster (counterexample 2; nodes 0 = "a", 1 = "p", 2 = "x").  "x" leaves gracefully
+(leave intent at time 1, delivered to "a" and "p"; the copies they re-queue are lost), memberlist
+reports it down to both, then "x" comes back: its join intent carries its clock, 2 — the tie time —
+and memberlist reports it up to "a".  "a" push/pulls with "p", which still lists "x" as left at
+time 1: `MergeRemoteState` makes the artificial leave at 1 + 1 = 2 and "a" turns the running "x"
+from alive to leaving.  Then the real join intent at 2 is delivered to "a" (ignored: 2 ≤ 2) and to
+"p" (applied), and memberlist reports "x" up to "p". -/
+def tieRun : List CStep :=
+  [.notify 0 "x" true 0, .notify 1 "x" true 0, .notify 2 "a" true 0,
+   .api 2 (.leaveBegin 0),
+   .deliver 0 0 true, .deliver 1 0 false, .drop 0, .drop 0,
+   .notify 0 "x" false 3, .notify 1 "x" false 3,
+   .api 2 (.ownJoin 0),
+   .notify 0 "x" true 0,
+   .pushPull 0 1 0,
+   .deliver 0 0 true, .deliver 1 0 false, .notify 1 "x" true 0]
+
+/-- Counterexample 2 to full agreement: after `tieRun`, "a" lists the running "x" as `leaving` and
+"p" lists it as `alive`, both at status time 2, no refutation pending; more push/pulls in both
+directions and further deliveries of the join intent still on the wire change nothing. -/
+theorem C02_agreement_counterexample_tie :
+    (crun (Cluster.init ["a", "p", "x"]) tieRun).nodes.map (fun n => (n.name, statusOf n "x", ltimeOf n "x", n.pending))
+      = [("a", some .leaving, some 2, []), ("p", some .alive, some 2, []), ("x", some .alive, some 2, [])] ∧
+    (crun (Cluster.init ["a", "p", "x"]) tieRun).flight = [.join "x" 2] ∧
+    (crun (Cluster.init ["a", "p", "x"]) (tieRun ++ [.pushPull 0 1 0, .pushPull 1 0 0, .deliver 0 0 true, .deliver 0 0 true])).nodes
+      = (crun (Cluster.init ["a", "p", "x"]) tieRun).nodes := by decide +kernel
+
+-- non-vacuity of `AliveAt` / `C02_agreement_partial`: in the run where the leave claim about "x"
+-- (time 1) is followed at both observers by a join intent at time 2, both list "x" as alive.
+def okRun : List CStep :=
+  [.notify 0 "x" true 0, .notify 1 "x" true 0, .notify 2 "a" true 0,
+   .api 2 (.leaveBegin 0), .deliver 0 0 true, .deliver 1 0 false, .drop 0, .drop 0,
+   .api 2 (.ownJoin 0), .deliver 0 0 true, .deliver 1 0 false]
+example : (crun (Cluster.init ["a", "p", "x"]) okRun).nodes.map (fun n => (statusOf n "x", ltimeOf n "x"))
+    = [(some .alive, some 2), (some .alive, some 2), (some .alive, some 2)] := by decide +kernel
+example : leaveTimes (history (Cluster.init ["a", "p", "x"]) okRun 0) "x" = [1] ∧
+    joinTimes (history (Cluster.init ["a", "p", "x"]) okRun 0) "x" = [2] ∧
+    lastUp "x" (history (Cluster.init ["a", "p", "x"]) okRun 0) false = true := by decide +kernel
+
+end ClusterAgreement
 
 end SerfProofs.C02
